@@ -118,6 +118,35 @@ Proof.
   cbn [option_map flatten mat_of_op flat_map app p3x p3y p3z ndiv ntwo nofZ NumR]. rewrite mt4_mul_identity_l. reflexivity.
 Qed.
 
+(* the accumulated matrix above the rotate_extrude of a curved pipe, and where it sends the section centre *)
+Lemma curved_placed od degrees radius fn_ (section : rtree) :
+  mat_of_op (Translate (P3 (od / 2 + radius) 0 0)) = Some (mt4_translate_matrix (od / 2 + radius) 0 0) /\
+  exists inner,
+  flatten mt4_identity [] (curved_wrap od degrees radius fn_ section) =
+  flatten (mt4_mul (mt4_mul mt4_identity (mt4_translate_matrix (- od / 2 - radius) 0 0))
+                   (mt4_mul (mt4_rot_z_matrix 0) (mt4_mul (mt4_rot_y_matrix 0) (mt4_rot_x_matrix 90)))) [] inner /\
+  inner = Node (RotateExtrude degrees 4%N None None (Some (Z.to_N fn_))) [Node (Translate (P3 (od / 2 + radius) 0 0)) [section]].
+Proof.
+  split; [reflexivity|]. eexists. split; [|reflexivity].
+  unfold curved_wrap. cbn [flatten mat_of_op flat_map p3x p3y p3z ndiv ntwo nofZ nneg nsub nzero NumR]. rewrite !app_nil_r. reflexivity.
+Qed.
+Lemma rot_x_fixes_x_axis (a x : R) : mt4_mul_pt4 (mt4_rot_x_matrix a) (Pt4 x 0 0 1) = Pt4 x 0 0 1.
+Proof. unfold mt4_rot_x_matrix. munfold. f_equal; ring. Qed.
+Lemma rot_y_0 (p : pt4 R) : mt4_mul_pt4 (mt4_rot_y_matrix 0) p = p.
+Proof. destruct p as [p0 p1 p2 p3]. unfold mt4_rot_y_matrix. munfold. fold NumR. rewrite dsin_0, dcos_0. f_equal; ring. Qed.
+Lemma rot_z_0 (p : pt4 R) : mt4_mul_pt4 (mt4_rot_z_matrix 0) p = p.
+Proof. destruct p as [p0 p1 p2 p3]. unfold mt4_rot_z_matrix. munfold. fold NumR. rewrite dsin_0, dcos_0. f_equal; ring. Qed.
+Lemma translate_x_axis (t x : R) : mt4_mul_pt4 (mt4_translate_matrix t 0 0) (Pt4 x 0 0 1) = Pt4 (x + t) 0 0 1.
+Proof. munfold. f_equal; ring. Qed.
+Lemma curved_centre_lands_on_origin od radius :
+  mt4_mul_pt4 (mt4_mul (mt4_mul mt4_identity (mt4_translate_matrix (- od / 2 - radius) 0 0))
+                       (mt4_mul (mt4_rot_z_matrix 0) (mt4_mul (mt4_rot_y_matrix 0) (mt4_rot_x_matrix 90))))
+              (mt4_mul_pt4 (mt4_translate_matrix (od / 2 + radius) 0 0) (Pt4 0 0 0 1)) = Pt4 0 0 0 1.
+Proof.
+  rewrite mt4_mul_identity_l, !mt4_mul_pt_assoc, translate_x_axis, rot_x_fixes_x_axis, rot_y_0, rot_z_0, translate_x_axis.
+  f_equal. field.
+Qed.
+
 (* ---------------- C17 ---------------- *)
 Fixpoint unroll_union (t : rtree) : list rtree :=     (* left-deep unions, as built by `a + b` *)
   match t with
